@@ -407,6 +407,7 @@ def run(ctx):
   _r3(ctx)
   r12_shared_tables_append_only(ctx)
   shared.rule_subgraph_independence(ctx, 'C19.R13')
+  shared.rule_blockwise_replacement(ctx, 'C19.R14', independence=True)
   shared.rule_performer_translation(ctx, 'C19.R9')
   shared.rule_performer_simulation(ctx, 'C19.R10')
   shared.rule_graph_rewrite_simulation(ctx, 'C19.R11', 'graph rewriting with two subgraphs and an interleaved plan: each subgraph is rewritten as if it stood alone')
